@@ -17,8 +17,18 @@ def _expr(names, depth):
     sub = _expr(names, depth - 1)
     k = st.integers(-3, 3)
     kc = st.integers(-4, 6)
+    # (defined before use in `cancel` below)
+    cancel = st.one_of(  # constants and terms that cancel EXACTLY (folding / normalisation slips show only there)
+        st.tuples(kc, sub).map(lambda t: ["add", ["rsub", t[0], t[1]], ["const", -t[0]]]),   # (k - e) - k
+        st.tuples(kc, sub).map(lambda t: ["sub", ["radd", t[0], t[1]], ["const", t[0]]]),    # (k + e) - k
+        st.tuples(kc, sub).map(lambda t: ["add", ["add", t[1], ["const", t[0]]], ["const", -t[0]]]),
+        sub.map(lambda e: ["sub", e, e]),                                                      # e - e
+        st.tuples(sub, sub).map(lambda t: ["sub", ["add", t[0], t[1]], ["add", t[1], t[0]]]),  # (a + b) - (b + a)
+        st.tuples(sub, k).map(lambda t: ["add", ["mul", t[0], t[1]], ["mul", t[0], -t[1]]]),   # k*e + (-k)*e
+    )
     return st.one_of(
         leaf,
+        cancel,
         st.tuples(sub, sub).map(lambda t: ["add", t[0], t[1]]),
         st.tuples(sub, sub).map(lambda t: ["sub", t[0], t[1]]),
         st.tuples(sub, k).map(lambda t: ["mul", t[0], t[1]]),
@@ -107,8 +117,18 @@ def model(draw, for_tv=False):
         for _ in range(draw(st.integers(0, 1))):
             cons.append(draw(_rel(names)))
     elif flavour == "cumulative":
-        crowded = draw(st.booleans())
-        if crowded:
+        crowded = draw(st.sampled_from([True, False, False, "disjunctive"]))
+        if crowded == "disjunctive":
+            # every demand fits alone, no two fit together (a unit resource) and some tasks have zero duration:
+            # a zero-length task is never active, so it may sit strictly inside another task's window
+            n = draw(st.integers(2, 4))
+            cap = draw(st.integers(1, 3))
+            vs = draw(_vars(n, 0, 2, 2))
+            names = [v[0] for v in vs]
+            durs = [draw(st.sampled_from([0, 0, 1, 2, 3])) for _ in names]
+            dems = [draw(st.integers(cap // 2 + 1, cap)) for _ in names]
+            cons.append(["cumulative", names, durs, dems, cap])
+        elif crowded:
             # many (task, start) candidates per time point: > 10 literals at the busiest instant
             n = draw(st.integers(4, 6 if not for_tv else 4))
             w = 3 if n == 4 else 2
